@@ -8,6 +8,7 @@ import Rare.Proofs.C19Ops
 import Rare.Proofs.C19Pool
 import Rare.Proofs.C19Vars
 import Rare.Proofs.C19IntText
+import Rare.Proofs.C11Log
 import Rare.Gen.C19
 import Rare.Gen.Access
 /-!
@@ -23,8 +24,8 @@ because it evaluates constant sub-formulas *with the same operations* as the run
 The second part (`*_f64`, `integer_formulas_exact`, `comparison_total`, `nan_*` …) instantiates the
 arithmetic with IEEE-754 binary64: `IEEE.arith L` of `Rare/Model/C19F64.lean`, built on the
 kernel-checkable software model `Rare.F64` (bit patterns, exact rationals, one rounding), for every
-behaviour `L` of the libm-backed functions (`sin`, `log`, …, `math.Pow` with a fractional exponent),
-which stay a parameter.  The driver evaluates with the same operations (`IEEE.arithT`, sound by
+behaviour `L` of the libm-backed functions (`sin cos tan asin acos atan exp exp2`, `math.Pow` with a
+fractional exponent), which stay a parameter; the logarithms are computed (round 4b, `log_functions_f64`).  The driver evaluates with the same operations (`IEEE.arithT`, sound by
 `taint_sound`) and is compared bit for bit with the Go code.
 
 `compile A s = .ok (t, e)`: `e` is the expression the Go code builds (with compile-time
@@ -897,9 +898,10 @@ example :
 
 /-- **Which unary functions are exact**: for every key of `uniOps` bound to `math.X`, the model computes
     `X`'s IEEE-determined definition when `X` is `Abs`, `Sqrt`, `Floor`, `Ceil` or `Round` (`goMathExact`:
-    sign-bit clear, correctly rounded square root, the integral roundings, half away from zero) and leaves it
-    to the parameter `L` otherwise – keyed by the GO function the table in /repo names, so
-    `"floor": math.Ceil` would break this. -/
+    sign-bit clear, correctly rounded square root, the integral roundings, half away from zero), the
+    operation-by-operation mirror of the Go routine when `X` is `Log`, `Log10` or `Log2` (round 4b), and leaves
+    it to the parameter `L` otherwise – keyed by the GO function the table in /repo names, so
+    `"floor": math.Ceil` or `"log": math.Log2` would break this. -/
 theorem exact_functions_named (L : Libm) :
     ∀ d ∈ Gen.C19.uniDesc, d.2.1 = "fn" →
       (prim L).fn d.1 = (match goMathExact d.2.2 with | some f => f | none => L.fn d.1) := by
@@ -1086,7 +1088,7 @@ theorem special_values_constants_and_bindings :
     (match classify arithT (ascii "NaN") with | some (.num (some x)) => x.isNaN | _ => false) = true ∧
     evalF64 (ascii "1e400") 0 = none ∧ (conv (ascii "1e400")).2 = 1 ∧ (conv (ascii "")).2 = 1 ∧
     evalF64 (ascii "x == x") F64.nan.bits = evalF64 (ascii "nan == nan") 0 ∧
-    evalF64 (ascii "1/x") (zero true).bits = some (inf true).bits ∧ evalF64 (ascii "1/-0") 0 = some (inf true).bits ∧
+    evalF64 (ascii "1/x") (zero true).bits = some (inf true).bits ∧ evalF64 (ascii "1/(-0)") 0 = some (inf true).bits ∧
     evalF64 (ascii "x - x") (inf false).bits = evalF64 (ascii "inf - inf") 0 ∧
     evalF64 (ascii "inf - inf") 0 = some F64.nan.bits := by
   decide +kernel
@@ -1174,6 +1176,56 @@ example : evalF64 (ascii "9223372036854775807") 0 = some (conv (ascii "922337203
     evalF64 (ascii "18446744073709551616") 0 = some (conv (ascii "18446744073709551616")).1.bits ∧
     evalF64 (ascii "-5") 0 = some (conv (ascii "-5")).1.bits ∧ (conv (ascii "-5")).2 = 0 ∧
     evalF64 (ascii "-0") 0 = some (conv (ascii "-0")).1.bits ∧ (conv (ascii "-0")).1 = zero true := by
+  decide +kernel
+
+/-! ### Round 4b: the logarithms are part of the model (no longer a parameter) -/
+
+/-- **`log`, `log10`, `log2` are computed, not assumed.**  In every formula and for every behaviour `L` of the
+    remaining libm functions, the three logarithms of `uniOps` are the fixed sequences of binary64 operations
+    Go executes on the platform of the check (`math.Log` = `log_amd64.s`, mirrored instruction by instruction in
+    `Model/C11Log.lean`, the model property C11 uses for `{ln}`/`{log10}`/`{log2}`; `math.Log10 = Log·(1/Ln10)`,
+    `math.Log2 = Frexp` + `Log(frac)·(1/Ln2) + exp`).  Consequences for ALL operands: `log` of ±0 is -Inf, of NaN
+    and of every negative value (−Inf included) NaN, of +Inf +Inf; and `log2` of EVERY normal power of two is
+    exactly its exponent (so `log2(1024) == 10`, `log2(0.125) == -3` hold bit for bit). -/
+theorem log_functions_f64 (L : Libm) (x : F64) :
+    (arith L).un [108, 111, 103] x = Rare.C11.Log.logAsm x ∧
+    (arith L).un [108, 111, 103, 49, 48] x = Rare.C11.Log.log10 x ∧
+    (arith L).un [108, 111, 103, 50] x = Rare.C11.Log.log2 x ∧
+    (x.mag = 0 → (arith L).un [108, 111, 103] x = F64.inf true) ∧
+    (x.isNaN = true → (arith L).un [108, 111, 103] x = F64.nan) ∧
+    (x.sign = true → x.mag ≠ 0 → (arith L).un [108, 111, 103] x = F64.nan) ∧
+    (x.sign = false → x.isInf = true → (arith L).un [108, 111, 103] x = x) ∧
+    (x.sign = false → x.isFinite = true → 4503599627370496 ≤ x.mag → x.frac = 0 →
+      (arith L).un [108, 111, 103, 50] x = ofInt ((x.expField : Int) - 1023)) := by
+  obtain ⟨s1, s2, s3, s4⟩ := Rare.C11.Log.logAsm_special x
+  rw [un_log, un_log10, un_log2]
+  exact ⟨rfl, rfl, rfl, s1, s2, s3, s4, Rare.C11.Log.log2_pow2_normal x⟩
+
+/-- `log(1)`, `log10(1)`, `log2(1)` are +0; `log10(1000)` is 3 bit for bit but `log10(1e15)` is
+    14.999999999999998 (`math.Log10 = Log·(1/Ln10)` is one ulp off there – Go's behaviour, reproduced; the only
+    power of ten up to 1e22 where that happens: `C11.Log.log10_table`); `log2(1024)` is 10, `log2(8)/log2(2)`
+    is 3, `log(0)` is -Inf, `log(-1)` NaN; `floor(log10(x))+1` counts the digits of 12345. -/
+example : evalF64 (ascii "log(1)") 0 = some 0 ∧ evalF64 (ascii "log10(1)") 0 = some 0 ∧ evalF64 (ascii "log2(1)") 0 = some 0 ∧
+    evalF64 (ascii "log10(1000)") 0 = some (ofInt 3).bits ∧
+    evalF64 (ascii "log10(1e15)") 0 = some 0x402DFFFFFFFFFFFF ∧
+    evalF64 (ascii "log2(1024)") 0 = some (ofInt 10).bits ∧ evalF64 (ascii "log2(8)/log2(2)") 0 = some (ofInt 3).bits ∧
+    evalF64 (ascii "log(0)") 0 = some (inf true).bits ∧ evalF64 (ascii "log(-1)") 0 = some F64.nan.bits ∧
+    evalF64 (ascii "floor(log10(x))+1") (ofInt 12345).bits = some (ofInt 5).bits := by
+  decide +kernel
+
+/-- **The platform the logarithm model mirrors is the platform of the check** (`Gen.C19.goarch`, `logProbes`:
+    computed by the toolchain the harness is built with, on every run): GOARCH is amd64, and at every probe
+    argument – subnormals (where the assembly routine and the portable code DIFFER), the rescaling boundary
+    `sqrt(2)/2` and its neighbours, 1 and its neighbours, powers of two and ten, `e`, the extremes of the
+    range, ±0, −1, ±Inf, NaN – `math.Log`, `math.Log10`, `math.Log2` returned bit for bit what the model
+    computes (NaN results canonical).  A toolchain or architecture on which `math.Log` is another routine
+    breaks this theorem before any formula is compared. -/
+theorem log_platform :
+    Gen.C19.goarch = "amd64" ∧ Gen.C19.logProbes.length ≥ 20 ∧
+    (Gen.C19.logProbes.all fun p =>
+      let x := ofBits (UInt64.ofNat p.1)
+      (Rare.C11.Log.logAsm x).bits == p.2.1 && (Rare.C11.Log.log10 x).bits == p.2.2.1 &&
+      (Rare.C11.Log.log2 x).bits == p.2.2.2) = true := by
   decide +kernel
 
 end ieee
